@@ -268,9 +268,10 @@ impl Puback {
 impl Encodable for Puback {
     fn encode<W: io::Write>(&self, writer: &mut W) -> io::Result<()> {
         write_u16(writer, self.pid.value())?;
-        if self.reason_code != PubackReasonCode::Success {
+        let has_properties = self.properties != PubackProperties::default();
+        if self.reason_code != PubackReasonCode::Success || has_properties {
             write_u8(writer, self.reason_code as u8)?;
-            if self.properties != PubackProperties::default() {
+            if has_properties {
                 self.properties.encode(writer)?;
             }
         }
@@ -422,9 +423,10 @@ impl Pubrec {
 impl Encodable for Pubrec {
     fn encode<W: io::Write>(&self, writer: &mut W) -> io::Result<()> {
         write_u16(writer, self.pid.value())?;
-        if self.reason_code != PubrecReasonCode::Success {
+        let has_properties = self.properties != PubrecProperties::default();
+        if self.reason_code != PubrecReasonCode::Success || has_properties {
             write_u8(writer, self.reason_code as u8)?;
-            if self.properties != PubrecProperties::default() {
+            if has_properties {
                 self.properties.encode(writer)?;
             }
         }
@@ -576,9 +578,10 @@ impl Pubrel {
 impl Encodable for Pubrel {
     fn encode<W: io::Write>(&self, writer: &mut W) -> io::Result<()> {
         write_u16(writer, self.pid.value())?;
-        if self.reason_code != PubrelReasonCode::Success {
+        let has_properties = self.properties != PubrelProperties::default();
+        if self.reason_code != PubrelReasonCode::Success || has_properties {
             write_u8(writer, self.reason_code as u8)?;
-            if self.properties != PubrelProperties::default() {
+            if has_properties {
                 self.properties.encode(writer)?;
             }
         }
@@ -707,9 +710,10 @@ impl Pubcomp {
 impl Encodable for Pubcomp {
     fn encode<W: io::Write>(&self, writer: &mut W) -> io::Result<()> {
         write_u16(writer, self.pid.value())?;
-        if self.reason_code != PubcompReasonCode::Success {
+        let has_properties = self.properties != PubcompProperties::default();
+        if self.reason_code != PubcompReasonCode::Success || has_properties {
             write_u8(writer, self.reason_code as u8)?;
-            if self.properties != PubcompProperties::default() {
+            if has_properties {
                 self.properties.encode(writer)?;
             }
         }
